@@ -62,7 +62,16 @@ def _type_name_and_keys(m, ci):
         if isinstance(n, ast.Call) and call_attr(n) == 'get_info':
             t = kwarg(n, 'type')
             if isinstance(t, ast.Constant):
-                return t.value, {k.arg for k in n.keywords if k.arg and k.arg != 'type'}, True, ed
+                keys = {k.arg for k in n.keywords if k.arg and k.arg != 'type'}
+                # an override of get_info in the class adds its own explicit keys (super().get_info(min=..., max=...))
+                for q in m.mro(ci.qualname):
+                    c2 = m.classes.get(q)
+                    ov = c2.methods.get('get_info') if c2 is not None and q != DT + '.DataType' and c2.module.name == DT else None
+                    if ov is not None:
+                        for x in calls_in(ov.node):
+                            if call_attr(x) == 'get_info':
+                                keys |= {k.arg for k in x.keywords if k.arg and k.arg != 'type'}
+                return t.value, keys, True, ed
         if isinstance(n, ast.Dict):
             keys = {k.value for k in n.keys if isinstance(k, ast.Constant)}
             if 'type' in keys:
@@ -198,6 +207,22 @@ def copy_without_sharing(ctx):
         ctx.analysed(f)
         for r in [n for n in body_walk(f.node) if isinstance(n, ast.Return) and n.value is not None]:
             v = r.value
+            if isinstance(v, ast.Name):
+                oo = origins(v, f.node)
+                if len(oo) == 1 and isinstance(oo[0], ast.Call):
+                    v = oo[0]
+            if isinstance(v, ast.Call):
+                # copy.copy(self) / copy.deepcopy are not constructors: the shallow one shares the propertyValues dict
+                # (where min, max, minlen ... live), so a limit set on the copy changes the original
+                target = dotted(v.func) or ''
+                head, _, rest = target.partition('.')
+                full = f.module.imports.get(head, head) + ('.' + rest if rest else '')     # local name -> dotted target
+                if full == 'copy.copy':
+                    if v.args and src(v.args[0]) == 'self':
+                        ctx.bad(f'{f.qualname}:constructs own class', r, f'copy() of {ci.name} is a shallow `{src(v)}`: original and copy share one '
+                                'propertyValues dict - a limit (min, max, minlen, maxlen, unit ...) set on the copy, e.g. by a subclass or a configuration, '
+                                'changes the original and every other copy', f)
+                        continue
             if not isinstance(v, ast.Call):
                 ctx.undecided(f'{f.qualname}:constructs own class', r, f'`{src(v)}` is not a constructor call', f)
                 continue
@@ -504,7 +529,10 @@ def exported_property_values_are_exact(ctx):
         if ci.module.name != DT or f is None:
             continue
         ctx.analysed(f)
-        units = [f] + [h for site, h in helper_methods_called(m, f) if h.name not in ('get_info', 'exportProperties')]
+        # helpers of the class on the export path - also an override of get_info in the datatype class itself (the base
+        # implementations in DataType / HasProperties only merge the keywords into the exported properties)
+        units = [f] + [h for site, h in helper_methods_called(m, f)
+                       if h.name != 'exportProperties' and (h.name != 'get_info' or (h.cls is not None and h.cls.qualname != f'{DT}.DataType'))]
         n = 0
         for u in units:
             for c in calls_in(u.node):
